@@ -9,6 +9,7 @@ import (
 	"fmt"
 	"go/constant"
 	"go/token"
+	"go/types"
 	"sort"
 	"strings"
 
@@ -128,7 +129,126 @@ func (e *Evaluator) run(fn *ssa.Function, fr *frame) (any, error) {
 // bound holds the element of a constant list while its range loop is being unrolled.
 var bound = map[ssa.Value]string{}
 
+// rowBind holds, while a range loop over a literal table of structs is being unrolled, the field values of the current
+// row: element load (the struct value of this iteration) -> field index -> the value the literal stores there.
+var rowBind = map[ssa.Value]map[int]ssa.Value{}
+
+// resolve maps a field of the current row of an unrolled struct table to the value the table literal holds.
+func resolve(v ssa.Value) ssa.Value {
+	if f, ok := v.(*ssa.Field); ok {
+		if row, ok := rowBind[f.X]; ok {
+			if x, ok := row[f.Field]; ok {
+				return x
+			}
+			return zeroOf(f.Type()) // a field the literal leaves out holds its zero value
+		}
+	}
+	// the range variable kept in a local: row := table[i]; … row.f …
+	if u, ok := v.(*ssa.UnOp); ok && u.Op == token.MUL {
+		if fa, ok := u.X.(*ssa.FieldAddr); ok {
+			if al, ok := fa.X.(*ssa.Alloc); ok {
+				var src ssa.Value
+				n := 0
+				for _, r := range *al.Referrers() {
+					if st, ok := r.(*ssa.Store); ok && st.Addr == ssa.Value(al) {
+						src = st.Val
+						n++
+					}
+				}
+				if n == 1 {
+					if row, ok := rowBind[src]; ok {
+						if x, ok := row[fa.Field]; ok {
+							return x
+						}
+						return zeroOf(u.Type())
+					}
+				}
+			}
+		}
+	}
+	return v
+}
+
+func zeroOf(t types.Type) ssa.Value { return ssa.NewConst(nil, t) }
+
+// structTable resolves a slice literal of structs whose rows are stored field by field with constant indices.
+func structTable(v ssa.Value) ([]map[int]ssa.Value, bool) {
+	sl, ok := v.(*ssa.Slice)
+	if !ok {
+		return nil, false
+	}
+	al, ok := sl.X.(*ssa.Alloc)
+	if !ok {
+		return nil, false
+	}
+	at, ok := al.Type().Underlying().(*types.Pointer).Elem().Underlying().(*types.Array)
+	if !ok {
+		return nil, false
+	}
+	if _, isStruct := at.Elem().Underlying().(*types.Struct); !isStruct {
+		return nil, false
+	}
+	rows := make([]map[int]ssa.Value, at.Len())
+	for i := range rows {
+		rows[i] = map[int]ssa.Value{}
+	}
+	for _, r := range *al.Referrers() {
+		switch x := r.(type) {
+		case *ssa.IndexAddr:
+			idx, ok := x.Index.(*ssa.Const)
+			if !ok || idx.Int64() < 0 || idx.Int64() >= at.Len() {
+				return nil, false
+			}
+			fields := func(base ssa.Value, into map[int]ssa.Value) bool {
+				for _, r2 := range *base.Referrers() {
+					switch y := r2.(type) {
+					case *ssa.FieldAddr:
+						for _, r3 := range *y.Referrers() {
+							st, ok := r3.(*ssa.Store)
+							if !ok || st.Addr != ssa.Value(y) {
+								return false
+							}
+							into[y.Field] = st.Val
+						}
+					case *ssa.UnOp, *ssa.DebugRef, *ssa.Store:
+					default:
+						return false
+					}
+				}
+				return true
+			}
+			for _, r2 := range *x.Referrers() {
+				switch y := r2.(type) {
+				case *ssa.FieldAddr:
+					// handled by fields(x, …) below
+				case *ssa.Store:
+					// t[j] = *complit: the row is a composite literal built in a local and copied in
+					ld, ok := y.Val.(*ssa.UnOp)
+					if !ok || y.Addr != ssa.Value(x) {
+						return nil, false
+					}
+					lit, ok := ld.X.(*ssa.Alloc)
+					if !ok || !fields(lit, rows[idx.Int64()]) {
+						return nil, false
+					}
+				case *ssa.DebugRef:
+				default:
+					return nil, false
+				}
+			}
+			if !fields(x, rows[idx.Int64()]) {
+				return nil, false
+			}
+		case *ssa.Slice, *ssa.DebugRef:
+		default:
+			return nil, false
+		}
+	}
+	return rows, true
+}
+
 func constStr(v ssa.Value) (string, bool) {
+	v = resolve(v)
 	if s, ok := bound[v]; ok {
 		return s, true
 	}
@@ -141,6 +261,7 @@ func constStr(v ssa.Value) (string, bool) {
 
 // strSlice resolves a variadic []string argument built from constants.
 func strSlice(v ssa.Value) ([]string, bool) {
+	v = resolve(v)
 	if c, ok := v.(*ssa.Const); ok && c.IsNil() {
 		return nil, true
 	}
@@ -151,6 +272,11 @@ func strSlice(v ssa.Value) ([]string, bool) {
 	al, ok := sl.X.(*ssa.Alloc)
 	if !ok {
 		return nil, false
+	}
+	if at, isArr := al.Type().Underlying().(*types.Pointer).Elem().Underlying().(*types.Array); !isArr {
+		return nil, false
+	} else if bt, isB := at.Elem().Underlying().(*types.Basic); !isB || bt.Info()&types.IsString == 0 {
+		return nil, false // not a list of strings (a table of structs is handled by structTable)
 	}
 	type kv struct {
 		i int64
@@ -185,6 +311,7 @@ func strSlice(v ssa.Value) ([]string, bool) {
 }
 
 func (e *Evaluator) regexpOf(v ssa.Value) (string, bool) {
+	v = resolve(v)
 	switch x := v.(type) {
 	case *ssa.UnOp:
 		if x.Op == token.MUL {
@@ -235,9 +362,11 @@ func (e *Evaluator) runHook(fn *ssa.Function, fr *frame, hook func(*ssa.Call, an
 	type unroll struct {
 		l     *model.RangeLoop
 		elems []string
+		rows  []map[int]ssa.Value // a literal table of structs (elems is then only used for its length)
 		next  int
 		elem  ssa.Value
 	}
+	var prev *ssa.BasicBlock // the block control came from (φ selection)
 	active := map[*ssa.BasicBlock]*unroll{}
 	for {
 		// a range loop over a list of constants is unrolled: the element is bound to each constant in turn
@@ -255,10 +384,17 @@ func (e *Evaluator) runHook(fn *ssa.Function, fr *frame, hook func(*ssa.Call, an
 					// a package-level list of constants that is only ever read
 					elems, ok = model.ConstSliceOf(e.P, lp.Over)
 				}
+				var rows []map[int]ssa.Value
+				if !ok {
+					// a literal table of structs: each iteration sees the fields of one row
+					if rows, ok = structTable(lp.Over); ok {
+						elems = make([]string, len(rows))
+					}
+				}
 				if !ok {
 					return nil, fmt.Errorf("%s: loop over a non-constant list in policy construction code", fn.Name())
 				}
-				u = &unroll{l: lp, elems: elems}
+				u = &unroll{l: lp, elems: elems, rows: rows}
 				for blk := range lp.Blocks {
 					for _, in := range blk.Instrs {
 						if ld, ok := in.(*ssa.UnOp); ok {
@@ -272,7 +408,11 @@ func (e *Evaluator) runHook(fn *ssa.Function, fr *frame, hook func(*ssa.Call, an
 			}
 			if u.next < len(u.elems) {
 				if u.elem != nil {
-					bound[u.elem] = u.elems[u.next]
+					if u.rows != nil {
+						rowBind[u.elem] = u.rows[u.next]
+					} else {
+						bound[u.elem] = u.elems[u.next]
+					}
 				}
 				u.next++
 				for blk := range lp.Blocks {
@@ -280,13 +420,16 @@ func (e *Evaluator) runHook(fn *ssa.Function, fr *frame, hook func(*ssa.Call, an
 						delete(visited, blk)
 					}
 				}
+				prev = b
 				b = lp.Body
 				continue
 			}
 			if u.elem != nil {
 				delete(bound, u.elem)
+				delete(rowBind, u.elem)
 			}
 			delete(active, b)
+			prev = b
 			b = lp.Exit
 			continue
 		}
@@ -294,8 +437,18 @@ func (e *Evaluator) runHook(fn *ssa.Function, fr *frame, hook func(*ssa.Call, an
 			return nil, fmt.Errorf("%s: loop in policy construction code", fn.Name())
 		}
 		visited[b] = true
+		var decided *ssa.BasicBlock // successor chosen by a nil test that could be evaluated
 		for _, in := range b.Instrs {
 			switch x := in.(type) {
+			case *ssa.Phi:
+				// the builder / policy value that arrives over the edge taken
+				for i, p := range b.Preds {
+					if p == prev {
+						if v, ok := fr.vals[x.Edges[i]]; ok {
+							fr.vals[x] = v
+						}
+					}
+				}
 			case *ssa.Call:
 				if err := e.call(fn, fr, x, hook, isMain); err != nil {
 					return nil, err
@@ -320,6 +473,29 @@ func (e *Evaluator) runHook(fn *ssa.Function, fr *frame, hook func(*ssa.Call, an
 					fr.vals[x] = polVal{newTable()}
 				}
 			case *ssa.If:
+				// `if row.pattern != nil` over a row of an unrolled table: the literal decides
+				if bo, ok := x.Cond.(*ssa.BinOp); ok && (bo.Op == token.EQL || bo.Op == token.NEQ) && len(rowBind) > 0 {
+					a, c := resolve(bo.X), resolve(bo.Y)
+					if k, isC := a.(*ssa.Const); isC && k.IsNil() {
+						a, c = c, a
+					}
+					if k, isC := c.(*ssa.Const); isC && k.IsNil() {
+						known, isNil := false, false
+						if ka, isC := a.(*ssa.Const); isC {
+							known, isNil = true, ka.IsNil()
+						} else if _, isRe := e.regexpOf(a); isRe {
+							known, isNil = true, false
+						}
+						if known {
+							if isNil == (bo.Op == token.EQL) {
+								decided = b.Succs[0]
+							} else {
+								decided = b.Succs[1]
+							}
+							continue
+						}
+					}
+				}
 				if isMain {
 					// error handling around io.ReadAll in the tools: `if err != nil { log.Fatal }` — tolerated, the
 					// fatal branch does not return
@@ -335,10 +511,17 @@ func (e *Evaluator) runHook(fn *ssa.Function, fr *frame, hook func(*ssa.Call, an
 				// stores into the policy's boolean fields by the trivially modelled setters are handled at call level
 			}
 		}
+		if decided != nil {
+			prev = b
+			// the blocks of the other arm are not visited; the join may be reached again on the next iteration
+			b = decided
+			continue
+		}
 		switch len(b.Succs) {
 		case 0:
 			return nil, nil
 		case 1:
+			prev = b
 			b = b.Succs[0]
 		default:
 			if !isMain {
